@@ -246,8 +246,8 @@ def run_job(w, job_modules, harnesses, outdir, jobs=16, harness_timeout=600, tot
     byid = {}
     for r in d.get('verification_results', {}).get('results', []):
         byid[r['harness_id']] = r
-    stats = {x['harness_id']: x.get('cbmc_stats', {}) for x in d.get('cbmc', [])}
-    pdet = {x['harness_id']: x.get('property_details', {}) for x in d.get('property_details', [])}
+    stats = {x['harness_id']: (x.get('cbmc_stats') or {}) for x in d.get('cbmc', [])}
+    pdet = {x['harness_id']: (x.get('property_details') or {}) for x in d.get('property_details', [])}
     edet = {x['harness_id']: x for x in d.get('error_details', [])}
     stubs = re.findall(r'- Stub: .*', out)
     for h in harnesses:
